@@ -426,6 +426,36 @@ def table_and_header(rep, F, tag):
     R2.guard(body2)
 
 
+def cone_tags(rep, F, tag):
+    """The per-type cone counts of the configuration header are computed from SupportedConeAsTag::as_tag: each cone variant
+    must map to the tag of the same name, otherwise cones of one type are listed under another."""
+    R = rep.rule('C20.R5', 'configuration header: label -> source provenance')
+
+    def body():
+        tags = {v['n'] for v in F.adt('SupportedConeTag')['variants']}
+        n = 0
+        for f in F.find(name='as_tag'):
+            owner = last_seg(strip_generics(f.impl_self or f.impl_adt or ''))
+            if owner not in ('SupportedCone', 'SupportedConeT'):
+                continue
+            names = {int(v['discr']) if v['discr'] is not None else i: v['n'] for i, v in enumerate(F.adt(owner)['variants'])}
+            for val, ret, ev, tr in Walker(f).leaves():
+                if ret[0] != 's':
+                    continue
+                d = [v for k, v in val.items() if k == 'discr(self)']
+                if len(d) != 1:
+                    continue
+                src = names.get(d[0], '?')
+                want = src[:-1] if (src.endswith('T') and src[:-1] in tags) else src
+                got = str(ret[1]).rsplit('::', 1)[-1]
+                n += 1
+                R.check(got == want, 'cone-tag|%s::%s%s' % (owner, src, tag),
+                        '%s::%s is tagged %s: the header lists cones of that type under the wrong heading (per-type counts and sizes are wrong)' % (owner, src, got), f.loc())
+        R.check(n >= 12, 'cone-tag-count' + tag, 'only %d cone variants with a tag analysed' % n)
+
+    R.guard(body)
+
+
 def run(ctx, rep, tier):
     for cfg in CONFIGS:
         F = ctx.facts(cfg)
@@ -435,6 +465,7 @@ def run(ctx, rep, tier):
         single_route(rep, F, G, tag)
         transparent_targets(rep, F, tag)
         table_and_header(rep, F, tag)
+        cone_tags(rep, F, tag)
     if tier == 'thorough':
         from . import witness
         witness.run(rep, 'C20.W', ['private_stream'])
